@@ -477,6 +477,33 @@ var c01Plants = []c01Plant{
 		f.ExtraImports = append(f.ExtraImports, gen.Import{Path: "nope/v1/missing.proto"})
 		return f, "import", f.Path + ":nope/v1/missing.proto"
 	}},
+	{"import-non-canonical-spelling", func(c *core.C, s *gen.Schema) (*gen.File, string, string) {
+		// an import that spells the path of an EXISTING file with "./", "//" or "/./": import paths are matched
+		// literally, so this is an unresolvable import, diagnosed at the import statement
+		files := s.AllFiles()
+		f := files[c.Rand.IntN(len(files))]
+		g := files[c.Rand.IntN(len(files))]
+		if f == g {
+			return nil, "", ""
+		}
+		p := g.Path
+		var spelled string
+		switch c.Rand.IntN(4) {
+		case 0:
+			spelled = "./" + p
+		case 1:
+			spelled = strings.Replace(p, "/", "//", 1)
+		case 2:
+			spelled = strings.Replace(p, "/", "/./", 1)
+		default:
+			spelled = "google/protobuf/./timestamp.proto"
+		}
+		if spelled == p {
+			return nil, "", ""
+		}
+		f.ExtraImports = append(f.ExtraImports, gen.Import{Path: spelled})
+		return f, "import", f.Path + ":" + spelled
+	}},
 	{"missing-semicolon", nil}, // text-level
 }
 
